@@ -6,7 +6,10 @@
      (b) the 0-order inputs: a Python number instead of a factor set (cp_tensor.py: `isinstance(cp_tensor, (float, int))`,
          `if not shape: return cp_tensor`; tt_tensor.py: tt_to_tensor returns the number, _validate_tt_tensor takes len() first);
      (c) the carrier of Model/Tenalg.v's generic np.einsum semantics built from a record of field operations, and the label lists of the
-         einsum-backend tt_matrix_to_tensor as Tenalg-style equations.
+         einsum-backend tt_matrix_to_tensor as Tenalg-style equations;
+     (d) cp_norm on carriers with a conjugation (complex factors / weights): norm = ones; for f: norm = norm * dot(transpose(f), conj(f));
+         if weights is not None: norm = norm * (reshape(weights, (-1, 1)) * reshape(weights, (1, -1))) -- the weights are NOT conjugated
+         (flag conj_weights = false: the code as it is; true: the candidate repair); executed at the Gaussian integers GIops.
    Definitions only. *)
 From Coq Require Import List Arith ZArith Lia Bool.
 From TLV Require Import Base.Shape Base.PyList Base.Tensor Base.BigSum Base.Ops Model.Base Model.BaseExt Model.Factorized Model.FactorizedSrc.
@@ -78,3 +81,31 @@ Definition ttm_einsum_generic (cores : list (tensor F)) : tensor F :=
   let N := length cores in
   transpose (f0 Op) (ttm_transposition N) (Tenalg.einsum rops_of (fst (ttm_equation N)) (snd (ttm_equation N)) cores).
 End M2.
+
+(* ------------------------------------------------------------------ (d) cp_norm with conjugation *)
+Section Conj.
+Context {F : Type} (Op : fops F) (cj : F -> F).
+(* dot(transpose(f), conj(f))[r, s] *)
+Definition gram_c (f : tensor F) (r s : nat) : F := fsumn Op (nrows f) (fun i => fmul Op (get2 Op f i r) (cj (get2 Op f i s))).
+Definition cp_normsq_conj_from (conj_weights : bool) (v : res (list nat * nat)) (w : option (tensor F)) (fs : list (tensor F)) : res F :=
+  rbind v (fun _ =>
+    let fs := as_matrices fs in
+    if negb (ndim (hd (mk [] []) fs) =? 2) then Err else
+    let R := ncols (hd (mk [] []) fs) in
+    Ok (fsumn Op R (fun r => fsumn Op R (fun s =>
+          fmul Op (fold_left (fun acc f => fmul Op acc (gram_c f r s)) fs (f1 Op))
+                  (fmul Op (wv Op w r) (if conj_weights then cj (wv Op w s) else wv Op w s)))))).
+Definition cp_normsq_conj (conj_weights : bool) (w : option (tensor F)) (fs : list (tensor F)) : res F :=
+  cp_normsq_conj_from conj_weights (validate_cp w fs) w fs.
+End Conj.
+
+(* the Gaussian integers a + b i as a record of operations (division is not used by the reconstruction functions) *)
+Definition GIops : fops Tenalg.GI :=
+  mkF (Tenalg.r0 Tenalg.GR) (Tenalg.r1 Tenalg.GR) (Tenalg.radd Tenalg.GR) (Tenalg.rsub Tenalg.GR) (Tenalg.rmul Tenalg.GR)
+      (fun a _ => a) (Tenalg.ropp Tenalg.GR) (fun a b => Z.eqb (fst a) (fst b) && Z.eqb (snd a) (snd b)).   (* the "order" test decides equality *)
+Definition gconj : Tenalg.GI -> Tenalg.GI := Tenalg.rconj Tenalg.GR.
+(* tucker_to_tensor(..., transpose_factors=True) on a carrier with a conjugation: multi_mode_dot multiplies by conj(transpose(M)) under both
+   backends ("for complex tensors, the conjugate transpose is used") *)
+Definition tconj {F : Type} (cj : F -> F) (t : tensor F) : tensor F := mk (shape t) (map cj (data t)).
+Definition tucker_to_tensor_conj {F : Type} (Op : fops F) (cj : F -> F) (core : tensor F) (fs : list (tensor F)) (skip : option nat) (tr : bool) :=
+  tucker_to_tensor Op core (if tr then map (tconj cj) fs else fs) skip tr.
